@@ -6,6 +6,7 @@ From Coq Require Import List NArith Bool Arith.
 From Coq Require String.
 Import String.StringSyntax.
 Import ListNotations.
+Require Import GenData FmtDerivText FmtDerivTextProofs FmtProlog FmtPrologProofs FmtHtml FmtHtmlProofs.
 Require Import Cat CatFacts Tree GenTables Fmt FmtProofs FmtCodec FmtDeriv FmtDerivProofs.
 
 (* --- the dependency column of conll is the head assignment implied by the head flags:
@@ -83,6 +84,121 @@ Theorem C07_numbering : forall (A : Type) (b : list (list A)),
   (forall k i (ts : list A), map (fun x => fst x) (number_trees k i ts) = map (fun j => (k, j)) (seq i (length ts))).
 Proof. exact numbering_all. Qed.
 
+(* ===================== text-level results added for deriv, prolog, html =====================
+   (models: FmtDerivText.v, FmtProlog.v, FmtHtml.v; every printer model is compared with the real printer on exact strings by
+   harness/props/c07.py, and each reader below is also run on the REAL printer's text) *)
+
+(* --- deriv, from the raw text (supersedes C07_deriv_struct_roundtrip_partial, which is kept): the reader cuts the text into lines,
+   the first two lines at blanks into category texts and words, counts the blanks and dashes of every dash line for the column extent,
+   reads the rule symbol after the dashes and the category of the next line, and rebuilds shape, words, all categories and rule symbols.
+   Side condition deriv_text_ok: words non-empty and free of str.isspace() characters (rstrip / the blank split would damage them), the printed
+   leaf categories likewise, inner categories and rule symbols free of newlines, rule symbols not starting with '-' *)
+Theorem C07_deriv_text_roundtrip : forall t txt, cats_wf t -> deriv_text_ok t -> print_deriv t = Some txt ->
+  dec_deriv_text txt = view_deriv t /\ view_deriv t <> None.
+Proof. exact deriv_text_roundtrip. Qed.
+
+Theorem C07_deriv_text_lines : forall t cs txt, cats_wf t -> deriv_text_ok t -> leaf_cells t = Some cs -> print_deriv t = Some txt ->
+  deriv_text_struct txt = Some (cs, post t 0).
+Proof. exact deriv_text_lines. Qed.
+
+Theorem C07_deriv_text_ok_decidable : forall t, deriv_text_okb t = true <-> deriv_text_ok t.
+Proof. intros t. split; [exact (deriv_text_okb_ok t) | exact (deriv_text_ok_b t)]. Qed.
+
+(* --- prolog, English (text level).  print_prolog_en k t is the `ccg(k, ...).` clause exactly as _prolog_string writes it.  Reading it back
+   (characters -> names / parentheses / commas / slashes / quoted atoms with \' -> ', then the term) gives the sentence number as written and
+   the derivation's view: its shape; every category in the Prolog spelling (plc_en: base lower-cased, `period comma colon semicolon`,
+   base:feature; as a category value); at a leaf word, lemma, pos, chunk, entity (XX defaults, un-escaped); at a unary node the functor lx,
+   whose second argument must be the child's category; at a binary node the functor of _op_mapping, `lx+lp` / `conj+conj` for the
+   lx(c, x, lp(x, l, r)) and conj(c, x\x, conj(x\x, x, l, r)) wrappers (x must be the right child's category) and for op_string conj the
+   extra argument, which must be the left part of the node's category.  Side condition pl_okb_en: the quoted fields contain no backslash
+   (_escape_prolog does not escape it), category atoms are names (no blank , ' ( ) / \ | in base or feature, no colon in the base) and slashes
+   are / \ |.  Labels outside _op_mapping, a missing word and op_string conj on an atomic category make the printer fail (hypothesis
+   print_prolog_en k t = Some txt).  Model restriction (FmtProlog.v): str.lower() acts on A-Z only, i.e. ASCII category names *)
+Theorem C07_prolog_en_roundtrip : forall k t txt, pl_okb_en t = true -> print_prolog_en k t = Some txt ->
+  dec_prolog_en txt = option_map (fun v => (show_nat k, v)) (view_prolog_en t) /\ view_prolog_en t <> None.
+Proof. exact prolog_en_roundtrip. Qed.
+
+(* the printed text, seen as tokens, is the term (lexer level of the statement above) *)
+Theorem C07_prolog_en_tokens : forall t, pl_okb_en t = true -> forall d s, pl_rec_en t d = Some s ->
+  exists ts, en_toks t = Some ts /\ forall rest, plex (s ++ rest) (LN []) = ts ++ plex rest (LN []).
+Proof. exact en_lex. Qed.
+
+Theorem C07_prolog_en_view_leaves : forall t v, view_prolog_en t = Some v ->
+  map (fun cx => Some (snd cx)) (vleaves v) = map (fun ct => leaf5_en (snd ct)) (leaves t) /\
+  map fst (vleaves v) = map (fun ct => plc_en (fst ct)) (leaves t).
+Proof. exact view_prolog_en_leaves. Qed.
+
+(* same shape as every other format's view, categories mapped to their Prolog spelling *)
+Theorem C07_prolog_en_view_skeleton : forall t v, view_prolog_en t = Some v ->
+  exists s, tree_skeleton t = Some s /\ skeleton_of v = vmapc plc_en s.
+Proof. exact view_prolog_en_skeleton. Qed.
+
+(* --- prolog, Japanese: rule(cat, children...) with rule = _ja_combinators[op_symbol] (unary and binary nodes), categories base or
+   base:case (both lower-cased; the LAST `case` entry of a three-valued feature), leaves t(cat, 'surf', 'base', 'pos', 'inflectionForm',
+   'inflectionType') with surf defaulting to the word, `*` defaults, pos = the four tags joined by '/' unless all are `*` *)
+Theorem C07_prolog_ja_roundtrip : forall k t txt, pl_okb_ja t = true -> print_prolog_ja k t = Some txt ->
+  dec_prolog_ja txt = option_map (fun v => (show_nat k, v)) (view_prolog_ja t) /\ view_prolog_ja t <> None.
+Proof. exact prolog_ja_roundtrip. Qed.
+
+Theorem C07_prolog_ja_view_leaves : forall t v, view_prolog_ja t = Some v ->
+  map (fun cx => Some (snd cx)) (vleaves v) = map (fun ct => leaf5_ja (snd ct)) (leaves t) /\
+  map fst (vleaves v) = map (fun ct => plc_ja (fst ct)) (leaves t).
+Proof. exact view_prolog_ja_leaves. Qed.
+
+Theorem C07_prolog_ja_view_skeleton : forall t v, view_prolog_ja t = Some v ->
+  exists s, tree_skeleton t = Some s /\ skeleton_of v = vmapc plc_ja s.
+Proof. exact view_prolog_ja_skeleton. Qed.
+
+(* the rule tables of the source (GenTables.v) can be read back: every _op_mapping entry is a name followed by `(`, lp -> lx, conj / conj2 ->
+   conj, no other functor is t / lx / conj / lp; every _ja_combinators entry is a name other than t *)
+Theorem C07_prolog_tables_readable : en_table_ok = true /\ ja_table_ok = true.
+Proof. exact (conj en_table_ok_true ja_table_ok_true). Qed.
+
+(* --- html (MathML).  mathml_subtree t is the text _mathml_subtree writes; it is the serialisation of an element tree (mathml_nodes:
+   tags, raw attribute text, un-escaped character data, the whitespace between the tags); reading that element tree - attributes and
+   whitespace ignored: <mrow><mfrac> premises <mstyle>category</mstyle></mfrac><mtext>rule</mtext></mrow>, category text = the <mi>
+   texts in document order, read with Category.parse - gives shape, every category (as a value), the op_string labels, the words, and
+   `lex` at every leaf.  The regular expression of _mathml_cat (mathml_scan) cuts a category text into (run, [feature]) pairs that
+   re-assemble to the text; html.escape is undone by a reader of its five entities.
+   Side conditions: categories are category values (cats_wf) without a newline inside a feature (cats_nonl: '.' of the regular
+   expression does not match U+000A - C07_html_roundtrip_newline_refuted shows the brackets are lost otherwise); for the text-level
+   statement words and rule labels are non-empty (an empty one leaves no text node to parse back).  Not modelled at text level: the
+   surrounding document of _MATHML_MAIN (doctype, head) - html_doc is tied to to_string by exact string comparison only. *)
+Theorem C07_html_roundtrip : forall t n, cats_wf t -> cats_nonl t = true -> mathml_node t = Some n ->
+  dec_mathml n = view_html t /\ view_html t <> None.
+Proof. exact html_roundtrip. Qed.
+
+Theorem C07_html_text_is_element_tree : forall t, mathml_subtree t = option_map hser_list (mathml_nodes t).
+Proof. exact mathml_subtree_ser. Qed.
+
+(* from the printed text: a tag / text parser for the subset written (no comments, no self-closing tags) gives the element tree back *)
+Theorem C07_html_text_roundtrip : forall t s, cats_wf t -> cats_nonl t = true -> texts_nonempty t = true -> mathml_subtree t = Some s ->
+  exists ns, hparse s = Some ns /\ dec_mathml_list ns = view_html t /\ view_html t <> None.
+Proof. exact html_text_roundtrip. Qed.
+
+Theorem C07_html_parse_ser : forall ns, hnorm_list ns = true -> hparse (hser_list ns) = Some ns.
+Proof. exact hparse_ser. Qed.
+
+Theorem C07_html_scan_reassembles : forall c, wf puncts c -> nonl_feats c = true ->
+  concat (map (fun p => fst p ++ snd p) (mathml_scan (show c))) = show c.
+Proof. exact mathml_scan_reassembles. Qed.
+
+Theorem C07_html_unescape_escape : forall s, html_unescape (html_escape s) = s.
+Proof. exact html_unescape_escape. Qed.
+
+Theorem C07_html_view_leaves : forall t v, view_html t = Some v ->
+  map (fun cx => Some (snd cx)) (vleaves v) = map (fun ct => leaf_word (snd ct)) (leaves t) /\ map fst (vleaves v) = map fst (leaves t).
+Proof. exact view_html_leaves. Qed.
+
+Theorem C07_html_fails_iff_no_word : forall t, mathml_node t = None <-> view_html t = None.
+Proof. exact mathml_node_none. Qed.
+
+(* a feature with a newline: the category S[a<LF>b] is a category value, its brackets are not printed, the reader gets another text *)
+Theorem C07_html_roundtrip_newline_refuted :
+  exists t n, cats_wf t /\ mathml_node t = Some n /\ dec_mathml n <> view_html t /\
+              concat (map (fun p => fst p ++ snd p) (mathml_scan (show (tcat t)))) <> show (tcat t).
+Proof. exact html_roundtrip_newline_refuted. Qed.
+
 (* ---------- non-vacuity: a derivation with a unary step, both head directions, a bracket word, a bare token ---------- *)
 Open Scope N_scope.
 Definition c_np : cat := Atom [78;80] FNone.
@@ -112,3 +228,82 @@ Proof. vm_compute. split; [reflexivity | discriminate]. Qed.
 Example ex_numbering : xml_numbers [[tt; tt]; [tt]; [tt; tt; tt]] = [(1, 1); (1, 2); (2, 1); (3, 1); (3, 2); (3, 3)] /\
                        jigg_numbers [[tt; tt]; [tt]] = [(0, 0); (0, 1); (1, 0)].
 Proof. vm_compute. split; reflexivity. Qed.
+
+
+(* ---------- non-vacuity of the text-level results ---------- *)
+Example ex_deriv_text : cats_wfb ex_text_tree = true /\ deriv_text_okb ex_text_tree = true /\
+  option_map dec_deriv_text (print_deriv ex_text_tree) = Some (view_deriv ex_text_tree) /\ view_deriv ex_text_tree <> None.
+Proof. vm_compute. repeat split; discriminate. Qed.
+
+Open Scope N_scope.
+Definition c_conj : cat := Atom [99;111;110;106] FNone.
+Definition c_comma : cat := Atom [44] FNone.
+Definition c_npnp : cat := Fun c_np [cBS] c_np.
+Definition lf (c : cat) (w : text) : tree := Leaf c [(k_word, w)] s_lex s_lexsym.
+(* conj2 and lp wrappers, plain conj with its extra argument, a unary step, a quote and a comma in words, a punctuation category *)
+Definition ex_pl_tree : tree :=
+  Bin c_s [98;97] [60] true
+      (Bin c_np [99;111;110;106;50] [60;934;62] true (lf c_np [105;116;39;115])
+           (Bin c_npnp [99;111;110;106] [60;934;62] true (lf c_conj [97;110;100]) (Un c_np [108;101;120] s_unsym (Leaf (Atom [78] FNone) (tk [100;111;103]) s_lex s_lexsym))))
+      (Bin c_vp [108;112] [60;108;112;62] false (lf c_comma [44]) (lf c_vp [114;117;110;115])).
+Definition c_ja_np : cat := Atom [78;80] (FTer [99;97;115;101] [103;97] [109;111;100] [110;109] [102;105;110] [102]).
+Definition c_ja_s : cat := Atom [83] (FTer [109;111;100] [110;109] [102;111;114;109] [98;97;115;101] [102;105;110] [116]).
+Definition ex_pl_ja_tree : tree :=
+  Bin c_ja_s [98;97] [60] true
+      (Un c_ja_np [65;68;78;105;110;116] [65;68;78;105;110;116] (Leaf c_ja_np [(k_word, [29483]); (k_pos, [21517;35422]); (k_pos1, [39;42])] s_lex s_lexsym))
+      (Leaf (Fun c_ja_s [cBS] c_ja_np) [(k_word, [36208;12427]); (k_surf, [36208;39;12427]); (k_base, [42])] s_lex s_lexsym).
+
+Example ex_prolog_en_dom : pl_okb_en ex_pl_tree = true /\ cats_wfb ex_pl_tree = true.
+Proof. vm_compute. split; reflexivity. Qed.
+Example ex_prolog_en : option_map dec_prolog_en (print_prolog_en 12 ex_pl_tree) = Some (option_map (fun v => (T "12", v)) (view_prolog_en ex_pl_tree)) /\
+  view_prolog_en ex_pl_tree <> None.
+Proof. vm_compute. split; [reflexivity | discriminate]. Qed.
+Example ex_prolog_en_leaf : print_prolog_en 1 (lf c_vp [105;116;39;115]%N) =
+  Some (T "ccg(1," ++ [10%N] ++ T " t((s:dcl\np), 'it\'s', 'XX', 'XX', 'XX', 'XX'))." ++ [10%N]).
+Proof. vm_compute. reflexivity. Qed.
+Example ex_prolog_en_labels : option_map (fun v => match v with VBin _ _ _ (VBin _ a _ _ (VBin _ b _ _ _)) (VBin _ c _ _ _) => [a; b; c] | _ => [] end) (view_prolog_en ex_pl_tree) =
+  Some [T "conj+conj"; T "conj"; T "lx+lp"].
+Proof. vm_compute. reflexivity. Qed.
+(* outside the side condition the round trip fails: a backslash before the closing quote swallows it *)
+Example ex_prolog_en_backslash : let t := lf c_np [97;92]%N in
+  pl_okb_en t = false /\ option_map dec_prolog_en (print_prolog_en 1 t) = Some None /\ view_prolog_en t <> None.
+Proof. vm_compute. repeat split; discriminate. Qed.
+(* the printer's errors are in the model: a label outside _op_mapping, conj on an atomic category, a token without a word *)
+Example ex_prolog_en_errors :
+  print_prolog_en 1 (Bin c_np [116;114] [62] true (lf c_np [97]%N) (lf c_np [98]%N)) = None /\
+  print_prolog_en 1 (Bin c_np [99;111;110;106] [62] true (lf c_np [97]%N) (lf c_np [98]%N)) = None /\
+  print_prolog_en 1 (Leaf c_np [] s_lex s_lexsym) = None.
+Proof. vm_compute. repeat split. Qed.
+Example ex_prolog_ja_dom : pl_okb_ja ex_pl_ja_tree = true.
+Proof. vm_compute. reflexivity. Qed.
+Example ex_prolog_ja : option_map dec_prolog_ja (print_prolog_ja 3 ex_pl_ja_tree) = Some (option_map (fun v => (T "3", v)) (view_prolog_ja ex_pl_ja_tree)) /\
+  view_prolog_ja ex_pl_ja_tree <> None.
+Proof. vm_compute. split; [reflexivity | discriminate]. Qed.
+Example ex_prolog_ja_text : print_prolog_ja 3 ex_pl_ja_tree =
+  Some (T "ccg(3," ++ [10%N] ++ T " ba(s," ++ [10%N] ++ T "  adnint(np:ga," ++ [10%N] ++ T "   t(np:ga, '" ++ [29483%N] ++ T "', '*', '" ++ [21517;35422]%N ++ T "/\'*/*/*', '*', '*'))," ++ [10%N] ++
+        T "  t((s\np:ga), '" ++ [36208%N] ++ T "\'" ++ [12427%N] ++ T "', '*', '*', '*', '*')))." ++ [10;10]%N).
+Proof. vm_compute. reflexivity. Qed.
+
+(* the side conditions hold on the shipped category inventories (GenData.v, regenerated from depccg/models on every run): every lexical
+   category of targets.en / targets.en_rebank / targets.ja can be read back from its Prolog spelling and is inside the lower-casing model *)
+Definition shipped_all (ok : cat -> bool) (l : list (list text)) : bool :=
+  forallb (fun ts => match Cat.parse_toks puncts ts with Some c => ok c | None => false end) l.
+Example ex_shipped_prolog_en : shipped_all (fun c => plcat_okb_en c && cat_asciib c) targets_en = true /\
+                               shipped_all (fun c => plcat_okb_en c && cat_asciib c) targets_en_rebank = true.
+Proof. vm_compute. split; reflexivity. Qed.
+Example ex_shipped_prolog_ja : shipped_all (fun c => plcat_okb_ja c && cat_asciib c) targets_ja = true.
+Proof. vm_compute. reflexivity. Qed.
+
+(* html: a derivation with escaped characters in words, a unary step, features *)
+Example ex_html_dom : cats_wfb html_example = true /\ cats_nonl html_example = true /\ texts_nonempty html_example = true.
+Proof. vm_compute. repeat split. Qed.
+Example ex_html : option_map dec_mathml (mathml_node html_example) = Some (view_html html_example) /\ view_html html_example <> None.
+Proof. vm_compute. split; [reflexivity | discriminate]. Qed.
+Example ex_html_text : option_map (fun s => option_map dec_mathml_list (hparse s)) (mathml_subtree html_example) = Some (Some (view_html html_example)).
+Proof. vm_compute. reflexivity. Qed.
+Example ex_html_scan : mathml_scan (T "(S[dcl]\NP)/NP") = [(T "(S", T "[dcl]"); (T "\NP)/NP", [])] /\
+                       mathml_scan (T "a[b][c]d]e[") = [(T "a", T "[c]"); (T "d", []); (T "e", [])].
+Proof. vm_compute. split; reflexivity. Qed.
+Example ex_shipped_html : shipped_all nonl_feats targets_en = true /\ shipped_all nonl_feats targets_en_rebank = true /\ shipped_all nonl_feats targets_ja = true.
+Proof. vm_compute. repeat split. Qed.
+Close Scope N_scope.
